@@ -185,7 +185,9 @@ def run_flow_case(c):
               fixed_radius=False if (c["cvm"] or c.get("radius_mode", "fixed") != "fixed") else c["radius"],
               expansion_fraction=c.get("expansion"), compute_radius_with_all=c.get("radius_all", False))
     if cls is AugmentedFlowProposal:
-        kw["augment_dims"] = 1
+        kw["augment_dims"] = c.get("augment_dims", 1)
+        kw["marginalise_augment"] = bool(c.get("marg"))
+        kw["n_marg"] = c.get("n_marg", 50)
     try:
         p = cls(model, **kw)
         p.initialise()
@@ -215,6 +217,27 @@ def run_flow_case(c):
         return x, lq
 
     flow.sample_and_log_prob = sal
+    marg_calls = []
+    real_randn = np.random.randn
+    if c.get("marg") and cls is AugmentedFlowProposal:
+        real_marg = p._marginalise_augment
+        drawn = []
+
+        def randn(*a):
+            r = real_randn(*a)
+            if sys._getframe(1).f_code.co_name == "_marginalise_augment":
+                drawn.append(np.array(r, dtype=float).copy())
+            return r
+
+        def marg(x):
+            del drawn[:]
+            out_ = real_marg(x)
+            marg_calls.append((np.array(x, dtype=float).copy(), drawn[-1].copy() if drawn else None,
+                               np.array(out_, dtype=float).copy()))
+            return out_
+
+        np.random.randn = randn
+        p._marginalise_augment = marg
     spy = RandSpy()
     spy.tag = lambda: len(calls) - 1
     lo_hi = loop_lines(FlowProposal.populate)
@@ -244,6 +267,7 @@ def run_flow_case(c):
             del zs[:]
             del spy.calls[:]
             del spy.latent_us[:]
+            del marg_calls[:]
             model.rec = []
             rec = {}
             try:
@@ -264,7 +288,35 @@ def run_flow_case(c):
             model.paused = True
             # ---- what the oracles produced, recomputed from the recorded flow outputs with the real rescaling ----
             batches, keymap, dup, gid0 = [], {}, False, 0
+            use_marg = bool(marg_calls) and len(marg_calls) == len(calls)
+            if marg_calls:
+                # (1) the value returned for point i must be the reduction over the augment draws OF POINT i: recompute the
+                # terms on the same repeated batch, group them per point here, compare
+                from scipy.special import logsumexp as _lse
+                from scipy import stats as _st
+                nm, ad = p.n_marg, p.augment_dims
+                mrec = []
+                for xm, dr, om in marg_calls:
+                    if dr is None or len(dr) != len(xm) * nm:
+                        mrec.append({"unrecorded": True})
+                        continue
+                    xr = np.repeat(xm, nm, axis=0)
+                    xr[:, -ad:] = dr.reshape(len(xr), ad)
+                    with np.errstate(all="ignore"):
+                        _, lpf = p.flow.forward_and_log_prob(xr)
+                        terms = np.asarray(lpf, dtype=float) - np.sum(_st.norm.logpdf(xr[:, -ad:]), axis=1)
+                        own = np.array([_lse(terms[i * nm:(i + 1) * nm]) for i in range(len(xm))]) - np.log(nm)
+                    fin_ = np.isfinite(own) & np.isfinite(om)
+                    err_ = float(np.abs(own[fin_] - om[fin_]).max()) if fin_.any() else 0.0
+                    mrec.append({"n_marg": int(nm), "n_points": int(len(xm)), "max_err": err_,
+                                 "scale": float(np.abs(own[fin_]).max()) if fin_.any() else 0.0,
+                                 "same_finite": bool(np.array_equal(np.isfinite(own), np.isfinite(om))),
+                                 "spread": float(np.ptp(own[fin_])) if fin_.any() else 0.0,
+                                 "terms": [fx(v) for v in terms], "outs": [fx(v) for v in om], "ln_n": fx(np.log(nm))})
+                rec["marg"] = mrec
             for bi, (xp, lq) in enumerate(calls):
+                if use_marg:
+                    lq = marg_calls[bi][2] if len(marg_calls[bi][2]) == len(lq) else lq   # the density that entered the weights
                 xs = numpy_array_to_live_points(xp.astype(float), p.prime_parameters)
                 with np.errstate(all="ignore"):
                     x, lj = p.inverse_rescale(xs)
@@ -344,6 +396,7 @@ def run_flow_case(c):
                 break
     finally:
         np.random.rand = spy.real
+        np.random.randn = real_randn
     return out
 
 
